@@ -502,6 +502,15 @@ def _save_frames(fn: ast.FunctionDef) -> dict:
     var = None
     buf = None          # the local that holds the encoded bytes of the frame (whatever it is called)
     steps: list[str] = []
+    def _is_lookup_stmt(x) -> bool:
+        if isinstance(x, ast.Try):
+            return any(_is_lookup_stmt(y) for y in x.body)
+        return isinstance(x, ast.Assign) and isinstance(x.value, ast.Subscript) and ast.unparse(x.value.value) == 'self._frames'
+    if not any(_is_lookup_stmt(x) for x in inner.body):
+        # no local names the looked-up frame: the lookup expression itself is used throughout
+        exprs = {ast.unparse(y) for x in inner.body for y in ast.walk(x) if isinstance(y, ast.Subscript) and ast.unparse(y.value) == 'self._frames'}
+        if len(exprs) == 1:
+            var = exprs.pop()
     for st in inner.body:
         if isinstance(st, ast.Try) and len(st.body) == 1 and not st.orelse and not st.finalbody and len(st.handlers) == 1 \
                 and len(st.handlers[0].body) == 1 and isinstance(st.handlers[0].body[0], ast.Assign) \
